@@ -9,6 +9,7 @@ import EdzedModel.ExtEvent
 import EdzedProofs.DataLemmas
 import EdzedProofs.ErrorReg
 import EdzedProps.C09
+import EdzedModel.Gen.Translated
 
 namespace Edzed.ExtEvent
 open ErrorReg
@@ -251,3 +252,22 @@ example : (final {} [.start none, .abortCall (.exc 1), .tick, .tick]).phase = .d
   decide
 
 end Edzed.ExtEvent
+
+/-! ### tie to the source by translation
+
+tools/py2lean.py regenerates `Gen.Tr.isReady` from `Circuit.is_ready` and `Gen.Tr.extSource` from the assignment
+`self._source = …` in `ExtEvent.__init__` on every run. -/
+namespace Edzed.TrTie
+
+theorem translated_is_ready_is_model (s : ErrorReg.St) :
+    Gen.Tr.isReady (if s.phase = .notStarted then none else some ()) (s.error.map fun _ => ()) = s.ready := by
+  unfold Gen.Tr.isReady ErrorReg.St.ready
+  cases s.phase <;> cases s.error <;> simp
+
+theorem translated_ext_source_is_model (src : String) : Gen.Tr.extSource src = ExtEvent.mkSource src := by
+  unfold Gen.Tr.extSource ExtEvent.mkSource ExtEvent.prefixed
+  rw [ExtEvent.prefix_is_documented]
+  have : Gen.extPrefix = "_ext_" := by decide
+  rw [this]
+
+end Edzed.TrTie
